@@ -69,6 +69,9 @@ Section Sort.
   (* a list that is the sort of one arrival order is the sort of every arrival order *)
   Corollary sorted_output_is_canonical l out : isort_by leb l = out -> forall l', Permutation l l' -> isort_by leb l' = out.
   Proof. intros <- l' HP. symmetry. apply isort_order_independent. exact HP. Qed.
+  (* sorting what is already sorted changes nothing: a second pass over the records (merge, re-sort after stamping) is harmless *)
+  Corollary isort_idempotent l : isort_by leb (isort_by leb l) = isort_by leb l.
+  Proof. apply isort_order_independent. apply Permutation_sym, isort_perm. Qed.
 End Sort.
 
 (* ---- the name-record key order is a total order *)
@@ -123,3 +126,11 @@ Proof.
   transitivity (sort_keys (rev keys)); [|exact H]. apply sort_keys_order_independent.
   eapply perm_trans; [apply Permutation_sym; exact HP|apply Permutation_rev].
 Qed.
+
+(* the output is ordered the way OpenType wants the name table: every record is <= every later one, and nothing is lost *)
+Theorem sort_keys_sorted_permutation keys :
+  sorted name_key key_leb (sort_keys keys) /\ Permutation keys (sort_keys keys).
+Proof. split; [apply isort_sorted; [apply key_leb_total|apply key_leb_trans]|apply isort_perm]. Qed.
+
+Theorem sort_keys_idempotent keys : sort_keys (sort_keys keys) = sort_keys keys.
+Proof. apply isort_idempotent; [apply key_leb_total|apply key_leb_trans|apply key_leb_antisym]. Qed.
